@@ -25,21 +25,31 @@ def job(D, geo, mode, target, seed, mfe, nfs=2, cons=None, opts=None, base="F", 
 
 # ------------------------------------------------------------------ container BFS
 KEYS = ("a", "b")
-VALS = {"scalar": lambda: 1.5, "list": lambda: [1.0, 2.0], "array": lambda: np.array([3.0, 4.0])}
+VALS = {"scalar": lambda: 1.5, "list": lambda: [1.0, 2.0], "array": lambda: np.array([3.0, 4.0]),
+        "nested": lambda: {"w": np.array([5.0, 6.0]), "l": [7.0, [8.0, 9.0]]}}
 
 
 def _mut(v):
+    """In-place mutation of the caller's object after it was handed over (nested members included)."""
     if isinstance(v, list):
+        for x in v:
+            _mut(x)
         v[0] = -99.0
     elif isinstance(v, np.ndarray):
         v += 100.0
+    elif isinstance(v, dict):
+        for x in v.values():
+            _mut(x)
+        v["extra"] = 1
 
 
 def _norm(v):
     if isinstance(v, np.ndarray):
         return ("arr", tuple(np.ravel(v).tolist()))
     if isinstance(v, list):
-        return ("list", tuple(v))
+        return ("list", tuple(_norm(x) for x in v))
+    if isinstance(v, dict):
+        return ("dict", tuple(sorted((k, _norm(x)) for k, x in v.items())))
     return ("val", v)
 
 
